@@ -178,7 +178,15 @@ func mapParSweep(res *C20Result) {
 				}
 				return f(e)
 			}
+			gPre := runtime.NumGoroutine()
 			got := analysis.VerifMapParallel(in, g, w)
+			for k := 0; k < 2000 && runtime.NumGoroutine() > gPre; k++ {
+				runtime.Gosched()
+				time.Sleep(50 * time.Microsecond)
+			}
+			if gPost := runtime.NumGoroutine(); gPost > gPre {
+				res.MapParBad = append(res.MapParBad, fmt.Sprintf("len=%d workers=%d: %d goroutines before the call, %d after it returned (leak)", n, w, gPre, gPost))
+			}
 			res.MapParN++
 			if n <= 8 && n > 1 {
 				orders[fmt.Sprintf("%d/%s", n, strings.Join(order, ","))] = true
@@ -241,6 +249,9 @@ var optionSets = []struct {
 	{"sum-paths", "  report-summaries: true\n  report-paths: true\n"},
 	{"sum-cov", "  report-summaries: true\n  report-coverage: true\n"},
 }
+
+// logLevels are crossed with the option sets: some code only runs at debug/trace verbosity.
+var logLevels = []int{1, 4}
 
 // C20 — the analyzer's own parallelism: Go race detector over the real analysis driver, MapParallel against the
 // sequential map, goroutine leaks, completeness of report files at return.
@@ -327,9 +338,13 @@ func C20(tier string) {
 			for oi := 0; oi < optN; oi++ {
 				os_ := optionSets[(oi+pi)%len(optionSets)]
 				for _, od := range []bool{false, true} {
-					name := fmt.Sprintf("%s-od%d-p%d", os_.Name, b2i(od), gmp)
+					ll := logLevels[(oi+b2i(od)+pi)%len(logLevels)]
+					name := fmt.Sprintf("%s-od%d-p%d-ll%d", os_.Name, b2i(od), gmp, ll)
 					rd := filepath.Join(dir, "reports-"+name)
 					c := ChainCfg{Name: name, OnDemand: od, Rewrites: true, Extra: os_.Extra + fmt.Sprintf("  reports-dir: %q\n", rd)}
+					if ll != 1 {
+						c.Extra += fmt.Sprintf("  log-level: %d\n", ll)
+					}
 					cp := filepath.Join(dir, "cfg-"+name+".yaml")
 					_ = os.WriteFile(cp, []byte(c.YAML()), 0o644)
 					job.Runs = append(job.Runs, TaintRunSpec{Name: name, Config: cp, Rewrites: true, Repeat: 1})
